@@ -48,6 +48,7 @@ type Conn struct {
 	FailAt  int   // -1: never fail; else Read returns FailErr once the position reaches FailAt (<= len(Data))
 	FailErr error
 	// pacing (never verdict-relevant)
+	EmptyEvery      int           // > 0: every EmptyEvery-th Read with data pending returns (0, nil) first, as io.Reader allows
 	ReadYield       int           // runtime.Gosched() calls before every Read returns
 	WriteYield      int           // runtime.Gosched() calls inside every Write
 	WriteSleep      time.Duration // sleep inside every k-th Write
@@ -62,6 +63,7 @@ type Conn struct {
 	once         sync.Once
 	events       []Event
 	writes       int
+	reads        int
 	ReadBuf      int // len(b) seen in Read (the reader's buffer size), for evidence
 	failed       bool
 	readDeadline bool // a read deadline is armed (virtual time: an idle connection reaches any finite deadline)
@@ -126,6 +128,12 @@ func (c *Conn) Read(b []byte) (int, error) {
 		// nothing more to deliver: block like an idle connection until it is closed locally
 		<-c.closed
 		return 0, ErrClosed
+	}
+	c.reads++
+	if c.EmptyEvery > 0 && c.reads%c.EmptyEvery == 0 {
+		c.log(Event{Kind: "read", A: c.pos, B: c.pos})
+		c.mu.Unlock()
+		return 0, nil
 	}
 	end := limit
 	for c.cut < len(c.Cuts) && c.Cuts[c.cut] <= c.pos {
